@@ -233,3 +233,74 @@ func sortCues(cs []cueSpec) {
 		}
 	}
 }
+
+// cliConvCase: a document converted by the command-line tool and by the library (Open + Write) must give the same file.
+type cliConvCase struct {
+	Ext    string `json:"ext"`
+	Doc    []byte `json:"doc"`
+	DstExt string `json:"dst_ext"`
+}
+
+func init() { register("cliconv", checkCLIConv) }
+
+func checkCLIConv(c cliConvCase) string {
+	cli := os.Getenv("VERIF_CLI")
+	if cli == "" {
+		return ""
+	}
+	dir, err := os.MkdirTemp("", "cliconv")
+	if err != nil {
+		return ""
+	}
+	defer os.RemoveAll(dir)
+	in := filepath.Join(dir, "in."+c.Ext)
+	if os.WriteFile(in, c.Doc, 0o644) != nil {
+		return ""
+	}
+	libOut, cliOut := filepath.Join(dir, "lib."+c.DstExt), filepath.Join(dir, "cli."+c.DstExt)
+	var libErr error
+	if s, err := astisub.OpenFile(in); err != nil {
+		libErr = err
+	} else {
+		libErr = s.Write(libOut)
+	}
+	out, cliErr := exec.Command(cli, "convert", "-i", in, "-o", cliOut).CombinedOutput()
+	ctx := fmt.Sprintf("astisub convert -i in.%s -o out.%s", c.Ext, c.DstExt)
+	if (libErr == nil) != (cliErr == nil) {
+		return fmt.Sprintf("%s: the command-line tool %s while Open + Write through the library %s\n%s\n--- document ---\n%s", ctx,
+			map[bool]string{true: "succeeded", false: "failed (" + fmt.Sprint(cliErr) + ")"}[cliErr == nil],
+			map[bool]string{true: "succeeded", false: "failed (" + strings.ReplaceAll(fmt.Sprint(libErr), dir, "") + ")"}[libErr == nil], clip(strings.ReplaceAll(string(out), dir, ""), 300), clip(string(c.Doc), 600))
+	}
+	if libErr != nil {
+		return ""
+	}
+	a, _ := os.ReadFile(cliOut)
+	b, _ := os.ReadFile(libOut)
+	if strings.EqualFold(c.DstExt, "stl") && len(a) >= 1024 && len(b) >= 1024 {
+		// creation / revision dates come from the clock of each process
+		a, b = append([]byte(nil), a...), append([]byte(nil), b...)
+		copy(a[224:236], "------------")
+		copy(b[224:236], "------------")
+	}
+	if !bytes.Equal(a, b) {
+		return fmt.Sprintf("%s: the file written by the command-line tool differs from the one Open + Write give through the library\n--- CLI ---\n%s\n--- library ---\n%s", ctx, clip(string(a), 600), clip(string(b), 600))
+	}
+	return ""
+}
+
+// cliConvertCases: generated documents of one format through the tool's convert sub-command, to the same format and to others.
+func cliConvertCases(t *testing.T, pid, format string) {
+	if os.Getenv("VERIF_CLI") == "" {
+		return
+	}
+	exts := map[string][]string{"srt": {"srt", "SRT"}, "vtt": {"vtt"}, "ssa": {"ssa", "ass"}, "ttml": {"ttml"}, "stl": {"stl", "STL"}}[format]
+	rapidCheck(t, pid+"/cli-convert", tier(30, 600), func(rt *rapid.T) {
+		c := cliConvCase{Ext: rapid.SampledFrom(exts).Draw(rt, "ext"), Doc: docGen(format).Draw(rt, "doc")}
+		c.DstExt = rapid.SampledFrom([]string{c.Ext, c.Ext, "srt", "vtt", "ttml", "ssa", "stl"}).Draw(rt, "dst")
+		ev.Case(len(c.Doc) > 0, string(c.Doc)+c.DstExt, "cli-convert", "cli-convert-to-"+strings.ToLower(c.DstExt))
+		if len(c.Doc) < 400 && format != "stl" {
+			ev.Sample("cli-convert", map[string]any{"ext": c.Ext, "dst": c.DstExt, "document": string(c.Doc)})
+		}
+		verdict(rt, pid, "cliconv", c, checkCLIConv)
+	})
+}
